@@ -133,23 +133,18 @@ def cmd_check(args):
            'shapes': set(), 'nontrivial_shapes': set(), 'states': set(), 'samples': [],
            'counters': {}, 'other_props': {}, 'worlds': {}}
   groups = {}       # sig_key -> (violation, scenario, result)
+  counts = {}
   errors = []
   chunk = 64 * max(1, (jobs or os.cpu_count() or 4) // 4)
-  i = 0
-  deadline = t0 + budget
-  while i < n_runs and time.time() < deadline:
-    scns = [gen_scenario(prop, tier, base_seed, j) for j in range(i, min(n_runs, i + chunk))]
-    results = runner.run_batch(scns, jobs=jobs, deadline=deadline + 20)
-    for scn, res in zip(scns, results):
-      if res is None:
-        continue
+
+  def absorb(scn, res):
       stats['runs'] += 1
       stats['worlds'][scn['world']] = stats['worlds'].get(scn['world'], 0) + 1
       if not res.get('ok'):
         stats['errors'] += 1
         if len(errors) < 5:
           errors.append((scn, res.get('error')))
-        continue
+        return
       stats['vtime'] += res.get('vtime', 0)
       stats['steps'] += res.get('steps', 0)
       for k, v in res.get('faults', {}).items():
@@ -169,9 +164,36 @@ def cmd_check(args):
           stats['other_props'][v['property']] = stats['other_props'].get(v['property'], 0) + 1
           continue
         groups.setdefault(sig_key(v), (v, scn, res))
+        counts[sig_key(v)] = counts.get(sig_key(v), 0) + 1
+  i = 0
+  deadline = t0 + budget
+  while i < n_runs and time.time() < deadline:
+    scns = [gen_scenario(prop, tier, base_seed, j) for j in range(i, min(n_runs, i + chunk))]
+    results = runner.run_batch(scns, jobs=jobs, deadline=deadline + 20)
+    pairs = list(zip(scns, results))
+    # fault enumeration: worlds with expand() turn each pilot run into one
+    # scenario per (I/O operation x fault kind)
+    extra = []
+    for scn, res in pairs:
+      mod = importlib.import_module('worlds.' + scn['world'])
+      if res and res.get('ok') and scn.get('pilot') and hasattr(mod, 'expand'):
+        for e in mod.expand(scn, res):
+          e['seed'] = scn['seed']
+          e['gen'] = scn['gen']
+          extra.append(e)
+    if extra:
+      stats['enumerated'] = stats.get('enumerated', 0) + len(extra)
+      pairs += list(zip(extra, runner.run_batch(extra, jobs=jobs, deadline=deadline + 60)))
+    for scn, res in pairs:
+      if res is None:
+        continue
+      absorb(scn, res)
     i += len(scns)
 
   # triage
+  if args.verbose:
+    for key, (v, scn, res) in sorted(groups.items()):
+      print('%5d x %s %s  e.g. seed=%d %s' % (counts[key], v['rule'], json.dumps(v['sig']), scn['seed'], v['msg'][:200]))
   rc = 0
   new, known_hits = [], {}
   for key, (v, scn, res) in sorted(groups.items()):
@@ -183,7 +205,7 @@ def cmd_check(args):
   for kid, (k, v) in sorted(known_hits.items()):
     print('KNOWN-FINDING: property=%s %s [%s] e.g. %s' % (prop, k['what'], kid, v['msg']))
   reported = 0
-  for v, scn, res in new[:4]:
+  for v, scn, res in new[:args.max_report]:
     mod = importlib.import_module('worlds.' + scn['world'])
     mscn, note = scn, {}
     if not args.no_shrink:
@@ -208,8 +230,8 @@ def cmd_check(args):
     print('VIOLATION property=%s replay=%s' % (prop, path))
     reported += 1
     rc = 1 if rc != 2 else 2
-  if len(new) > 4:
-    print('(%d further distinct violation signatures not minimised)' % (len(new) - 4))
+  if len(new) > args.max_report:
+    print('(%d further distinct violation signatures not minimised)' % (len(new) - args.max_report))
   if stats['errors']:
     for scn, err in errors[:3]:
       print('HARNESS-ERROR world=%s seed=%d: %s' % (scn['world'], scn['seed'], (err or '')[-1500:]))
@@ -404,6 +426,8 @@ def main():
   c.add_argument('--budget', type=float)
   c.add_argument('--jobs', type=int)
   c.add_argument('--no-shrink', action='store_true')
+  c.add_argument('--verbose', action='store_true')
+  c.add_argument('--max-report', type=int, default=4)
   r = sp.add_parser('replay')
   r.add_argument('file')
   r.add_argument('--tail', type=int, default=0)
